@@ -210,14 +210,18 @@ func (r *Reader) GetObject(objNum int) (core.Object, error) {
 
 // getUncompressedObject reads an object directly from the file
 func (r *Reader) getUncompressedObject(objNum int, entry *core.XRefEntry) (core.Object, error) {
-	// Seek to object position
+	// Seek to object position (this also reports a closed file)
 	_, err := r.file.Seek(entry.Offset, io.SeekStart)
 	if err != nil {
 		return nil, fmt.Errorf("failed to seek to object %d: %w", objNum, err)
 	}
+	if entry.Offset > r.fileSize {
+		return nil, fmt.Errorf("failed to seek to object %d: offset %d outside the file", objNum, entry.Offset)
+	}
 
-	// Parse the indirect object
-	parser := core.NewParser(r.file)
+	// Parse the indirect object from its own window onto the file: a nested
+	// lookup (an indirect /Length) must not move the position this parser reads from
+	parser := core.NewParser(io.NewSectionReader(r.file, entry.Offset, r.fileSize-entry.Offset))
 	parser.SetReferenceResolver(r)
 	indObj, err := parser.ParseIndirectObject()
 	if err != nil {
